@@ -752,17 +752,17 @@ impl<'r> Gen<'r> {
         match *self.r.pick(&opts) {
             0 => Expr::Int(self.r.below(50) as u32),
             1 => {
-                let (e, _, local) = self.syn_expr().unwrap();
+                let (e, kind, local) = self.syn_expr().unwrap();
                 if need_local && !local {
                     return Expr::Int(7);
                 }
-                let f = *self.r.pick(&[
-                    "start-row",
-                    "start-column",
-                    "end-row",
-                    "end-column",
-                    "named-child-count",
-                ]);
+                let mut fs = vec!["start-row", "start-column", "end-row", "end-column", "named-child-count"];
+                if kind != "module" && kind != "*" {
+                    // (not defined for the root node)
+                    fs.push("named-child-index");
+                    fs.push("named-child-index");
+                }
+                let f = *self.r.pick(&fs);
                 Expr::Call(f.into(), vec![e])
             }
             2 => {
@@ -968,7 +968,8 @@ impl<'r> Gen<'r> {
             ),
             3 => Stmt::Let(
                 VarRef::Local(self.fresh("bad")),
-                Expr::Call("no-such-function".into(), vec![]),
+                // not defined; some of the names are one edit away from two library functions
+                Expr::Call((*self.r.pick(&["no-such-function", "nod", "nod", "eqq", "plu", "o", "an", "end-ro"])).into(), vec![Expr::Int(1)]),
             ),
             4 => match self.gnode_expr() {
                 Some(g) => Stmt::AttrNode(
